@@ -516,7 +516,11 @@ func (c *c05chan) scenarioLarge(dir string) {
 		k := n / 6
 		got, err, ok := c05cRead(rd, k, 5*time.Second)
 		if !ok || err != nil {
-			c.s.Violate("reader-stalls-behind-writer", fmt.Sprintf("large: reader at %d (writer at %d) finished=%v err=%v", pos, right, ok, err), c.replay())
+			what := "reader-stalls-behind-writer"
+			if err != nil {
+				what = "reader-failed"
+			}
+			c.s.Violate(what, fmt.Sprintf("large: reader at %d (writer at %d) finished=%v err=%v", pos, right, ok, err), c.replay())
 			break
 		}
 		c.checkBytes("large/lagging", pos, got)
@@ -525,7 +529,11 @@ func (c *c05chan) scenarioLarge(dir string) {
 	if n := int(right - pos); n > 0 {
 		got, err, ok := c05cRead(rd, n, 10*time.Second)
 		if !ok || err != nil {
-			c.s.Violate("reader-stalls-behind-writer", fmt.Sprintf("large: final catch-up from %d to %d finished=%v err=%v", pos, right, ok, err), c.replay())
+			what := "reader-stalls-behind-writer"
+			if err != nil {
+				what = "reader-failed"
+			}
+			c.s.Violate(what, fmt.Sprintf("large: final catch-up from %d to %d finished=%v err=%v", pos, right, ok, err), c.replay())
 		} else {
 			c.checkBytes("large/catch-up", pos, got)
 		}
